@@ -24,6 +24,30 @@ def main(path):
         print("no concrete case recorded (no-failing-input-found); detail:")
         print(json.dumps(d.get("detail"), indent=1)[:4000])
         return 0
+    if "generator" in cj:
+        # a long generated stream (C13): re-run the twin generators on both sides and re-evaluate the checkpoints
+        from gencase import GenCase, run_gen_harness, coq_check_gen
+        g = cj["generator"]
+        pr = cj["params"]
+        gc = GenCase(cj["id"], cj["indicator"], (pr[0], pr[1], pr[2], decode(pr[3])), g["regime"], g["seed"], g["length"], g["a"], g["b"],
+                     g["checkpoint_every"], g["bars"], max(pr[0], 1) + 1, meta=cj.get("meta"))
+        with Lock():
+            ok, log = build_coq()
+            b = build_harness()
+            run_gen_harness(b, [gc], "replay")
+            res = coq_check_gen([gc], "replay")
+        x = res[0]
+        t2x, t1x = divmod(x, 100000000)
+        code, j = divmod(t2x, 1000000)
+        print("stream: %s" % cj["ops_readable"][0])
+        for k, bits in gc.cps[:8] + ([("...", [])] if len(gc.cps) > 16 else []) + gc.cps[-8:]:
+            print("  after %s inputs: impl=%s" % (k, [fbits(v) for v in bits] if bits else ""))
+        print("hash of all outputs (impl): %s" % gc.hash)
+        print("T1 (bit-exact vs float model; 0 = agreement, 1xxxxxx = checkpoint, 2000000 = hash of all outputs, 4000000 = panic):", t1x)
+        print("T2 (impl vs exact from-scratch value of the window at the checkpoints; 0 = within tau(t)*maxmag, 3 = violated at checkpoint j):", code, "j =", j)
+        if code == 3 and 0 < j <= len(gc.cps):
+            print("  violating checkpoint: after %d inputs, impl=%s" % (gc.cps[j - 1][0], [fbits(v) for v in gc.cps[j - 1][1]]))
+        return 0 if x == 0 else 1
     ops = []
     for o in cj["ops"]:
         if o[0] == "build":
